@@ -98,6 +98,8 @@ def etag(t):
         return 'fn:' + t['f'] + ':' + ','.join(t.get('kw', [])) + ':' + ','.join(map(str, t.get('silent', [])))
     if t['k'] == 'const':
         return 'const:' + canon(t['v'])
+    if t['k'] == 'switch':
+        return 'switch:' + canon(sorted(t['table'], key=lambda r: json.dumps(r[0])))
     if t['k'] in ('impure', 'byvalue'):
         return t['k'] + '(' + etag(t['inner']) + ')'
     return t['k']        # a cache edge: every field has a storage of its own, the numbering is arbitrary
@@ -201,4 +203,67 @@ def run_shard(args):
             bad.append({'desc': cd, 'what': ['cache layer container'] + keys, 'real': {k: a[k] for k in keys[:2]}, 'model': {k: m[k] for k in keys[:2]}})
         elif not ans.get('wf'):
             bad.append({'desc': cd, 'what': 'the model container of a cache layer is not well-formed (Bag.wfB)'})
+    return stats, bad
+
+
+def run_merge_shard(args):
+    """the container of `Merge(*datasets)` (layers/merge.py `_merge_containers`) against `CM.Model.Merge.mergeBags`: the parts'
+    real containers go in, the merged containers are compared edge by edge up to node identities"""
+    seed, n = args
+    paths.use_repo()
+    from . import rel
+    recs, reqs = [], []
+    stats = {'merges': 0, 'parts': 0, 'errors': {}}
+    for c in range(n):
+        rng = random.Random(seed * 92377 + c)
+        k = rng.choice([1, 2, 2, 3, 4])
+        id_lists = rel.gen_ids(rng, k)
+        common = rng.sample(['x', 'y', 'z'], rng.randint(1, 2))
+        counter = [0]
+        descs = []
+        for ids in id_lists:
+            extra = [f for f in ['x', 'y', 'z'] if f not in common and rng.random() < 0.4]
+            d = rel.gen_dataset(rng, counter, ids, common + extra)
+            if rng.random() < 0.3:
+                d = {'k': 'chain', 'flavour': 'chain', 'layers': [d, {'k': 'ram', 'names': None, 'size': None}]}
+            descs.append(d)
+        world = SymWorld()
+        b = Builder(world)
+        try:
+            layers = [b.layer(d) for d in descs]
+            parts = [real_bag(world, l) for l in layers]
+        except Exception:
+            continue
+        try:
+            merged = b.c.Merge(*layers)
+            real = {'ok': real_bag(world, merged)}
+            table = sorted([[i, idx] for idx, l in enumerate(layers) for i in l.ids], key=lambda r: json.dumps(r[0]))
+        except (Unsupported, RecUnsupported):
+            continue
+        except Exception as e:
+            real = {'err': exc_name(e)}
+            table = []
+            if real['err'] == 'RuntimeError':       # overlapping ids: rejected before any container is merged
+                continue
+        recs.append((descs, real))
+        reqs.append({'parts': parts, 'table': table, 'keys': 'ids'})
+    answers = driver.run_lines([{'op': 'factory', 'merges': reqs}])[0] if reqs else {'merges': []}
+    bad = []
+    if 'error' in answers:
+        return stats, [{'desc': None, 'diff': answers['error']}]
+    for (descs, real), ans in zip(recs, answers['merges']):
+        stats['merges'] += 1
+        stats['parts'] += len(descs)
+        if 'err' in real or 'err' in ans:
+            kk = real.get('err', 'ok')
+            stats['errors'][kk] = stats['errors'].get(kk, 0) + 1
+            if real.get('err') != ans.get('err'):
+                bad.append({'desc': descs, 'what': 'Merge container', 'real': real.get('err', 'ok'), 'model': ans.get('err', 'ok')})
+            continue
+        a, m = canon_sem(real['ok']), canon_sem(ans['ok'])
+        if a != m:
+            keys = [kk for kk in a if a[kk] != m[kk]]
+            bad.append({'desc': descs, 'what': ['Merge container'] + keys, 'real': {kk: a[kk] for kk in keys[:2]}, 'model': {kk: m[kk] for kk in keys[:2]}})
+        elif not ans.get('wf'):
+            bad.append({'desc': descs, 'what': 'the model container of a Merge is not well-formed (Bag.wfB)'})
     return stats, bad
